@@ -22,10 +22,10 @@ namespace hist {
 static const int P = 10;  // client slots
 
 enum Op { H_NEW, H_NEWTREE, H_LOAD, H_COPY, H_INCREF, H_DECREF, H_IDECREF, H_PUSH, H_PUSH_MOVE, H_SET, H_REPLACE, H_GET, H_MAP_ADD, H_ADD_CHUNK,
-          H_TAG_SET, H_TAG_GET, H_TAG_BUILD, H_SERIALIZE, H_SIZE, H_DESCRIBE, H_BORROW, H_COUNT };
+          H_TAG_SET, H_TAG_GET, H_TAG_BUILD, H_SERIALIZE, H_SIZE, H_DESCRIBE, H_BORROW, H_RESET_HANDLE, H_COUNT };
 static inline const char* op_name(int o) {
   static const char* n[] = {"new", "newtree", "load", "copy", "incref", "decref", "intermediate_decref", "push", "push_move", "set", "replace", "get", "map_add", "add_chunk",
-                            "tag_set", "tag_get", "tag_build", "serialize", "size", "describe", "borrow"};
+                            "tag_set", "tag_get", "tag_build", "serialize", "size", "describe", "borrow", "reset_handle"};
   return o < H_COUNT ? n[o] : "?";
 }
 
@@ -451,6 +451,17 @@ struct Interp {
       case H_BORROW: {
         int sa = pick_slot(a); if (sa < 0) return;
         if (check_lists) check_contents(slot[sa], nm);
+        break;
+      }
+      case H_RESET_HANDLE: {
+        // in-place length trim: hand the block the item already owns back to set_handle with a shorter length
+        int sa = pick_typed(a, [](const MNode& n) { return (n.type == 2 || n.type == 3) && !n.indef; }); if (sa < 0) return;
+        MNode& n = nodes[slot[sa]];
+        size_t len = n.leaf.bytes.size(); size_t nl = len ? (size_t)b % (len + 1) : 0;
+        if (n.type == 2) { unsigned char* h = cbor_bytestring_handle(n.item); LCV(cbor_bytestring_set_handle(n.item, h, nl)); }
+        else { unsigned char* h = cbor_string_handle(n.item); LCV(cbor_string_set_handle(n.item, h, nl)); }
+        n.leaf.bytes.resize(nl); effective++;
+        note("reset_handle(s" + std::to_string(sa) + "," + std::to_string(nl) + ")");
         break;
       }
     }
